@@ -89,6 +89,7 @@ def judgeErrdoc (id : String) (ins outs : List String) : String :=
                 let mRt := fromBytes mAs == some code
                 if mAs = implAs ∧ boolStr mRt = rtS ∧ r.status = implStatus ∧ r.headers.isPerm implHdrs ∧ r.body = implBody then
                   let cls :=
+                    if !carriable then "outside-xml-chars" else
                     (match code with
                       | .known _ => "known"
                       | .custom _ => if kind = "custom" && (fromBytesArms.lookup name).isSome then "custom-alias" else "custom")
@@ -96,7 +97,6 @@ def judgeErrdoc (id : String) (ins outs : List String) : String :=
                           | [] => "" | _ => if implStatus = 500 && !documented.contains (some 500) then "+na500" else "")
                     ++ (if hdrs.isSome then "+headers" else "")
                     ++ (if noDecl then "+nodecl" else "")
-                    ++ (if carriable then "" else "+outside-xml-chars")
                   agree id cls
                 else disagree id (showResp mAs mRt r) s!"{asH}/{rtS}/{implStatus}/{implHdrs.length}h/{bodyH}"
               | _, _ => disagree id "panic(unreachable)" "ok"
@@ -128,22 +128,37 @@ def judgeFuzzcall (id : String) (ins outs : List String) : String :=
       | "unbuildable" :: why => unmodelled id ("unbuildable-" ++ " ".intercalate why)
       | "err" :: txt =>
         specfail id "call-returned-err" ("S3Service::call returned Err(HttpError): " ++ " ".intercalate txt)
-      | ["ok", statusS, _hdrS, bodyH] =>
+      | ["ok", statusS, hdrS, bodyH] =>
         match statusS.toNat?, hexDecode bodyH with
         | some status, some body =>
           if status < 100 || status ≥ 1000 then specfail id "status-out-of-range" s!"{status}"
           else if 200 ≤ status && status < 300 then agree id s!"ok-{status}"
           else
             match parseErrorDoc body with
-            | none => specfail id "error-body-not-error-document" s!"status {status}, body {hexEncode (body.take 200)}"
+            | none =>
+              -- a body that no XML processor accepts because of a C0 control character is its own class
+              let ctl := body.any fun b => b.toNat < 32 && b.toNat ≠ 9 && b.toNat ≠ 10 && b.toNat ≠ 13
+              specfail id (if ctl then "error-body-control-char" else "error-body-not-error-document")
+                s!"status {status}, body {hexEncode (body.take 200)}"
             | some info =>
-              let plantedHit := match planted with
-                | some (c, some s) => c = info.code && s = status
-                | _ => false
               let documented : List (Option Nat) := match fromBytes info.code with
                 | some (.known c) => [implStatus c]
                 | _ => []
-              if plantedHit then agree id s!"planted-{str info.code}-{status}"
+              -- the backend's / route's planted error came back: it is recognised by its request id
+              if info.requestId = some (sb "PLANTED-REQUEST-ID") then
+                match planted with
+                | none => specfail id "planted-error-unexpected" "a planted error although none was planted"
+                | some (c, ov) =>
+                  let hdrs := (pairsDecode hdrS).getD []
+                  if info.code ≠ c then
+                    specfail id "planted-error-code" s!"code {str info.code}, planted {str c}"
+                  else if info.message ≠ some (sb "planted <error> & \"message\"") then
+                    specfail id "planted-error-message" s!"message {optHexEncode info.message}"
+                  else if !statusAcceptable ov documented status then
+                    specfail id "planted-error-status" s!"status {status}, override {repr ov}, table {repr documented}"
+                  else if !hdrs.contains (sb "x-planted", sb "1") then
+                    specfail id "planted-error-headers" "the header attached to the planted error is missing"
+                  else agree id s!"planted-{str info.code}-{status}"
               else if statusAcceptable none documented status then agree id s!"{str info.code}-{status}"
               else specfail id "error-status-not-table" s!"code {str info.code} status {status} table {repr documented}"
         | _, _ => badline id
